@@ -324,6 +324,7 @@ void checkOracles(const Desc& d, const Obs& o, RunResult& r) {
     bool childrenMayOverlap = false;
     Set<Str> childDontCare;                // ... except those of tests whose child the parent may not have waited for
     Vec<std::pair<Str, Str> > expectedBlocks;  // (header, token) per expected failure, for the console
+    Map<Str, size_t> blockSlack;               // per header: failures of unfixed location that may carry it as well
     size_t failCursor = 0;
 
     for (size_t rp = 0; rp < repsSeen.size(); rp++) {
@@ -533,7 +534,7 @@ void checkOracles(const Desc& d, const Obs& o, RunResult& r) {
                     if (outside) h = sfmt("\n%s:%zu: error: Failure in %s\n%s:%zu: error:\n\t", T.sarg(2), (size_t)T.arg(1), ef.testName.c_str(), ef.file.c_str(), ef.line);
                     else h = sfmt("\n%s:%zu: error: Failure in %s\n\t", ef.file.c_str(), ef.line, ef.testName.c_str());
                     expectedBlocks.push_back(std::make_pair(h, ef.token));
-                }
+                } else blockSlack[sfmt("\n%s:%zu: error: Failure in %s\n\t", T.sarg(2), (size_t)T.arg(1), ef.testName.c_str())]++;      // a failure the framework reports where it sees fit may be reported at the test itself
             }
             repChecks += x.checks; repFailures += segFails.size();
             totalExpectedFailures += x.fails.size();
@@ -598,7 +599,8 @@ void checkOracles(const Desc& d, const Obs& o, RunResult& r) {
             for (size_t i = 0; i < expectedBlocks.size(); i++) blockWant[expectedBlocks[i].first]++;
             for (Map<Str, size_t>::const_iterator it = blockWant.begin(); it != blockWant.end(); ++it) {
                 size_t got = countOcc(o.console, it->first);
-                if (got != it->second) r.fail("C01", "printed_location", sigOf("what", "location block"), sfmt("location block %s printed %zu times, expected %zu", Json::S(it->first).dump().c_str(), got, it->second));
+                size_t slack = blockSlack.count(it->first) ? blockSlack[it->first] : 0;
+                if (got < it->second || got > it->second + slack) r.fail("C01", "printed_location", sigOf("what", "location block"), sfmt("location block %s printed %zu times, expected %zu", Json::S(it->first).dump().c_str(), got, it->second));
             }
         }
         Vec<ParsedSummary> ps; parseSummaries(o.console, ps);
